@@ -51,7 +51,8 @@ CONSTANTS
   Ops,          \* names of the operations that are enabled (family selection)
   MaxSteps,     \* simulation: length of a behaviour
   Record,       \* simulation: keep the behaviour in hist and schedule operations by the wheel
-  EmitLabels    \* exhaustive: print every (operation, reply class, argument shape) once per worker
+  EmitLabels,   \* exhaustive: print every (operation, reply class, argument shape) once per worker
+  TgtOp, TgtCls, TgtN, TgtK, TgtV  \* directed search: the label to reach ("" in TgtOp: none); see NotReached
 
 VARIABLES
   db,      \* the relations
@@ -61,9 +62,10 @@ VARIABLES
   last,    \* the step just taken: operation, arguments, expected reply, shape (not part of the view)
   steps,   \* simulation: steps taken
   nextop,  \* simulation: the operation scheduled next
-  hist     \* simulation: the behaviour so far
-vars == <<db, saved, tx, nops, last, steps, nextop, hist>>
-view == <<db, saved, tx, nops>>
+  hist,    \* simulation: the behaviour so far
+  goal     \* directed search: the target label has been taken
+vars == <<db, saved, tx, nops, last, steps, nextop, hist, goal>>
+view == <<db, saved, tx, nops, goal>>
 
 -----------------------------------------------------------------------------
 (* constants and argument domains *)
@@ -221,7 +223,9 @@ Spin == IF Record
              nextop' = IF Len(w) = 0 THEN "" ELSE w[RandomElement(1..Len(w))]
         ELSE nextop' = nextop
 
+IsTarget(l) == l.op = TgtOp /\ l.r.cls = TgtCls /\ l.sh.n = TgtN /\ l.sh.k = TgtK /\ l.sh.v = TgtV
 Keep == /\ steps' = IF Record THEN steps + 1 ELSE steps
+        /\ goal' = (goal \/ (TgtOp # "" /\ IsTarget(last')))
         /\ Spin
         /\ hist' = IF Record THEN Append(hist, [act |-> last', tx |-> tx', db |-> db']) ELSE hist
 
@@ -657,6 +661,7 @@ Init ==
   /\ last = [op |-> "Init", kind |-> "tx", a |-> [x |-> ""], r |-> Done, sh |-> Sh(0, 0, "")]
   /\ steps = 0 /\ hist = <<>>
   /\ nextop = IF Record THEN "BeginWrite" ELSE ""
+  /\ goal = FALSE
   /\ TLCSet(1, {})
 
 Reads ==
@@ -689,7 +694,7 @@ Next == TxSteps \/ Reads \/ Writes
 BoundedOps == {"CreateMailbox", "GetOrCreateMailbox", "GetOrCreateMailboxAlt", "CreateMailboxIfNotExists",
                "AddMessagesToMailbox", "CreateMessageAndAddToMailbox", "MarkMessageAsDeletedAndAssignRandomRemoteID"}
 Respin == /\ Record /\ nextop \in BoundedOps /\ steps < MaxSteps
-          /\ UNCHANGED <<db, saved, tx, nops, last, steps, hist>>
+          /\ UNCHANGED <<db, saved, tx, nops, last, steps, hist, goal>>
           /\ Spin
 SimNext == Next \/ Respin
 
@@ -700,6 +705,10 @@ Spec == Init /\ [][Next]_vars
 
 \* simulation: one JSON document per finished behaviour
 EmitBehaviour == (Record /\ steps >= MaxSteps /\ tx = "none") => PrintT(ToJson([trace |-> hist]))
+
+\* directed search: violated by the shortest behaviour that takes the target label and ends outside a transaction
+\* (TLC writes it with -dumpTrace; the harness replays it)
+NotReached == ~(goal /\ tx = "none")
 
 \* exhaustive: every (operation, reply class, shape) of the bounded model, once per worker
 LabelOf(l) == [op |-> l.op, cls |-> l.r.cls, n |-> l.sh.n, k |-> l.sh.k, v |-> l.sh.v]
